@@ -15,7 +15,7 @@ oracle evaluates the property on what the implementation itself printed:
        a call or step that never returns (`hang`) is a violation.
 """
 import re
-from .props import Prop, Run, register, COMMON_TRUSTED, eq_lines
+from .props import XLATE_TRUSTED, Prop, Run, register, COMMON_TRUSTED, eq_lines
 
 _hcache = {}
 
@@ -127,6 +127,7 @@ RING_TRUSTED = COMMON_TRUSTED + [
     "regenerated facts: defaultBufferSize/defaultReadBlockSize/defaultWriteBlockSize and the lock structure of service/buffer.go "
     "(tied to the model's lock structure by `decide`)",
     "yield hooks in service/buffer.go (build tag verif) and the harness classification of the marks read from the same source",
+    XLATE_TRUSTED,
 ]
 
 _runs = [Run('ring', quick=1500, thorough=12000, seeds_thorough=8),
